@@ -314,7 +314,7 @@ def generate(seed, tier):
         combos = [(p, k) for p in pos for k in kinds]
         if quick and len(combos) > 110:
             combos = rng.sample(combos, 110)
-        elif not quick and bi >= 20 and len(combos) > 400:
+        elif not quick and bi >= 10 and len(combos) > 400:
             combos = rng.sample(combos, 400)
         for p, k in combos:
             shapes.append(("wrong-kind-at-position", emit(replace_at(b, p, k), rng)))
